@@ -134,6 +134,9 @@ var readOnlyExt = []string{
 	"slices.Contains", "slices.Index", "(*net/http.Client).Do", "invoke.AuthToken", "time.", "(time.Time).", "github.com/btcsuite/btcd/btcec/v2.", "crypto/elliptic.", "invoke.IsOnCurve", "invoke.Params", "math.", "(*strings.Builder).", "sort.Strings:fresh",
 	// strings.Replacer is documented "safe for concurrent use by multiple goroutines" (its tables are built under a sync.Once)
 	"(*strings.Replacer).Replace",
+	// serialisers of third-party value types, read: they only read their receiver
+	// (did-go endpoint.go:157 returns json.Marshal of its raw fields; kms-go jwk.go:154 dispatches to marshal helpers)
+	"(*github.com/trustbloc/did-go/doc/did/endpoint.Endpoint).MarshalJSON", "(*github.com/trustbloc/kms-go/doc/jose/jwk.JWK).MarshalJSON",
 }
 
 func (a *effect) report(in ssa.Instruction, what string) {
@@ -473,4 +476,21 @@ func (c *Ctx) runEffect(rule string, entries []*ssa.Function, srcParams func(f *
 	sort.Strings(es)
 	c.extra["read_only_externals_receiving_input_reachable_values:"+label] = es
 	c.extra["write_sites_examined:"+label] = a.sites
+}
+
+// runEffectQuiet is runEffect with its own lower bound on the size of the call tree (small validators).
+func (c *Ctx) runEffectQuiet(rule string, entries []*ssa.Function, srcParams func(f *ssa.Function) []*ssa.Parameter, label string, minFuncs int) {
+	a := &effect{c: c, fl: map[ssa.Value]int{}, tup: map[ssa.Value]map[int]int{}, locs: map[string]bool{}, ret: map[*ssa.Function]map[int]int{}, viol: map[string]effViolation{}, ext: map[string]int{}}
+	a.run(entries, srcParams)
+	var keys []string
+	for k := range a.viol {
+		keys = append(keys, k)
+	}
+	sort.Strings(keys)
+	c.Check(rule, label+":call-tree", len(a.order) >= minFuncs, entries[0].Pos(), fmt.Sprintf("%d functions in the call tree of %s; %d write sites / external hand-offs examined", len(a.order), label, a.sites))
+	c.Check(rule, label+":no-write-through-inputs", len(keys) == 0, entries[0].Pos(), fmt.Sprintf("no store / map update / append / copy / delete / sort / decode targets memory reachable from the inputs of %s (%d sites examined)", label, a.sites))
+	for _, k := range keys {
+		v := a.viol[k]
+		c.Check(rule, label+":"+k, false, v.p, v.what)
+	}
 }
